@@ -39,8 +39,12 @@ def sh(cmd, cwd=None, env=None, timeout=None, input=None):
     e["CARGO_NET_OFFLINE"] = "true"
     if env:
         e.update(env)
-    p = subprocess.run(cmd, cwd=cwd, env=e, stdout=subprocess.PIPE, stderr=subprocess.STDOUT,
-                       timeout=timeout, input=input, text=True, errors="replace")
+    try:
+        p = subprocess.run(cmd, cwd=cwd, env=e, stdout=subprocess.PIPE, stderr=subprocess.STDOUT,
+                           timeout=timeout, input=input, text=True, errors="replace")
+    except subprocess.TimeoutExpired as ex:
+        out = ex.stdout if isinstance(ex.stdout, str) else (ex.stdout or b"").decode("utf-8", "replace")
+        return 124, out + f"\n[timeout after {timeout} s: {' '.join(map(str, cmd))[:200]}]"
     return p.returncode, p.stdout
 
 
@@ -336,7 +340,7 @@ def main(argv):
             extra = 4 if tier == "quick" else 16
             notes.append(f"failing-input search: {extra} more seeds per generator")
             with ThreadPoolExecutor(max_workers=14) as ex:
-                futs = [ex.submit(run_trace_job, pid, j, seed + 1000 + k, "thorough", "-search")
+                futs = [ex.submit(run_trace_job, pid, dict(j, timeout=min(j.get("timeout", 1500), 900)), seed + 1000 + k, "thorough", "-search")
                         for j in spec["jobs"] for k in range(extra)]
                 for f in futs:
                     r = f.result()
